@@ -137,6 +137,9 @@ def judge(ctx, ss, ts, tb, fb):
 
     spec = {"kind": "match", "source": ss, "target": ts, "tb": tb, "fb": fb}
     src, tgt = [geoms.build(s) for s in ss], [geoms.build(t) for t in ts]
+    if ss == ts and ss and ctx.evaluations % 2:
+        tgt = src             # a list matched against itself: the very same list object on both sides
+        ctx.mon("match.same_list_twice")
     try:
         if ctx.evaluations % 5 == 0:
             it = iter(instrument.original(M.match_geometries)(src, tgt, time_buffer=tb, freq_buffer=fb))
@@ -246,6 +249,7 @@ def run(ctx):
         ([box(0.0, 2.0)], [box(1.0, 3.0), box(0.0, 2.0)]),
         ([], []), ([box(0.0, 1.0)], []), ([], [box(0.0, 1.0)]),
     ]
+    directed += [([box(0.0, 1.0), box(0.5, 1.5), box(10.0, 11.0)],) * 2, ([{"type": "TimeStamp", "coordinates": 1.0}, {"type": "Point", "coordinates": [1.0, 2000.0]}],) * 2] * 2
     for ss, ts in directed:
         ctx.case(("directed", len(ss), len(ts)), {"source": ss, "target": ts, "tb": 0.01, "fb": 100.0}, nontrivial=bool(ss and ts))
         judge(ctx, ss, ts, 0.01, 100.0)
